@@ -103,10 +103,51 @@ Proof.
   - apply flag_rule_z. reflexivity.
 Qed.
 
+(* the compressor the server compresses with is the one named in the response header *)
+Theorem server_codec_named : forall reg r rc v0 v1 ct, reg 0 = false -> reg 1 = false ->
+  scp r <> 1 -> server_send reg r rc = (v0, v1, ct) -> pick v0 v1 <> 0 ->
+  pick v0 v1 = ct /\ plain ct = false.
+Proof.
+  intros reg r rc v0 v1 ct R0 R1 Hs H Hp.
+  pose proof (flag_response reg r rc v0 v1 ct 1 R0 R1 Hs H) as F. unfold flag_of, rule in F.
+  replace (pick v0 v1 =? 0) with false in F by lia. cbn [negb andb Z.eqb] in F.
+  destruct (plain ct) eqn:P; [cbn in F; discriminate|]. split; [|reflexivity].
+  destruct (server_send_cases _ _ _ _ _ _ H) as [[A1 [A2 [A3 A4]]]|[[B1 [B2 [B3 [B4 B5]]]]|[[C1 [C2 [C3 [C4 [C5 C6]]]]]|[D1 [D2 [D3 D4]]]]]]; subst.
+  - unfold pick. reflexivity.
+  - unfold pick in *. destruct (reg (setn r)); cbn [Z.eqb negb] in *; [|congruence].
+    destruct (setn r =? 0) eqn:E; cbn [negb] in *; [lia|reflexivity].
+  - unfold pick in *. destruct (rc =? 0) eqn:E; cbn [negb] in *; [lia|reflexivity].
+  - unfold pick in Hp. cbn in Hp. congruence.
+Qed.
+
+(* outside the class of clause 10 a PreparedMsg is compressed like any other message *)
+Lemma server_codec_send : forall reg r rc, f10 reg r rc = false ->
+  server_codec reg r rc = (let '(v0, v1, _) := server_send reg r rc in pick v0 v1).
+Proof.
+  intros reg r rc F. unfold server_codec. destruct (prep_s r) eqn:P; [|reflexivity].
+  unfold f10 in F. rewrite P in F. cbn [andb] in F. unfold server_send.
+  destruct (server_default reg r rc) as [[a b] n] eqn:D. cbn [snd] in F.
+  destruct (negb (setn r =? 0) && set_valid reg r (setn r)) eqn:V; [|reflexivity].
+  try rewrite V in F. cbn [andb] in F. apply negb_false_iff in F. rewrite F. reflexivity.
+Qed.
+
+(* PreparedMsg on the server after SetSendCompressor: REFUTED.  Encode still uses the
+   compressors of stream creation: (a) the client used gzip, the handler selects identity ->
+   header identity, body gzip, flag 1, client INTERNAL; (b) uncompressed request, handler
+   selects gzip -> header gzip, 5-byte message sent with flag 0; (c) client used gzip,
+   handler selects x-va -> header x-va, body gzip-compressed: the client cannot decode it *)
+Theorem prepared_after_set_refuted :
+  run_rpc reg0 (mkRpc 2 0 0 None 0 0 1 [(5, 5)] 2) = [cInternal; 1; 1; 2; 1; 1; 0; 1; 1; 1; 1] /\
+  run_rpc reg0 (mkRpc 0 0 0 None 0 0 2 [(5, 5)] 2) = [0; 1; 1; 0; 2; 1; 1; 1; 0; 1; 0] /\
+  run_rpc reg0 (mkRpc 2 0 0 None 0 0 3 [(5, 5)] 2) = [cInternal; 1; 1; 2; 3; 1; 0; 1; 1; 1; 1] /\
+  server_codec reg0 (mkRpc 2 0 0 None 0 0 3 [(5, 5)] 2) 2 = 2 /\
+  server_send reg0 (mkRpc 2 0 0 None 0 0 3 [(5, 5)] 2) 2 = (0, 3, 3).
+Proof. vm_compute. repeat split. Qed.
+
 (* the literal "flag iff non-identity encoding" is false for empty messages ... *)
 Theorem flag_empty_refuted : exists r rc l,
   client_send reg0 r = Some rc /\ plain rc = false /\ l = 0 /\ flag_of (client_codec r) l = 0.
-Proof. exists (mkRpc 2 0 0 None 0 0 0 [(0, 7)]), 2, 0. vm_compute. auto. Qed.
+Proof. exists (mkRpc 2 0 0 None 0 0 0 [(0, 7)] 0), 2, 0. vm_compute. auto. Qed.
 
 (* legacy RPCCompressor + SetSendCompressor("identity") (the repaired defect): the header says
    identity, the legacy compressor is dropped and no message is flagged; the old witness
@@ -123,7 +164,7 @@ Proof.
 Qed.
 
 Theorem legacy_identity_witness :
-  run_rpc reg0 (mkRpc 0 0 0 None 3 0 1 [(5, 5)]) = [0; 1; 1; 0; 1; 1; 1; 1; 0; 1; 0].
+  run_rpc reg0 (mkRpc 0 0 0 None 3 0 1 [(5, 5)] 0) = [0; 1; 1; 0; 1; 1; 1; 1; 0; 1; 0].
 Proof. vm_compute. reflexivity. Qed.
 
 (* ---------- the server's choice ---------- *)
@@ -152,7 +193,7 @@ Theorem server_choice_legacy_refuted : exists r rc v0 v1 ct,
   client_send reg0 r = Some rc /\ server_send reg0 r rc = (v0, v1, ct) /\
   plain ct = false /\ adv reg0 r ct = false /\ ct <> rc.
 Proof.
-  exists (mkRpc 0 0 0 (Some (mask_has 1)) 3 0 0 [(5, 5)]), 0, 3, 0, 3. vm_compute.
+  exists (mkRpc 0 0 0 (Some (mask_has 1)) 3 0 0 [(5, 5)] 0), 0, 3, 0, 3. vm_compute.
   repeat split; congruence.
 Qed.
 
@@ -245,6 +286,37 @@ Proof.
         destruct T as [T|[T1 [T2 T3]]]; [lia|]. destruct U; congruence.
       * destruct (IH _ _ _ _ _ eq_refl U E) as [I1 I2]. subst. cbn [length]. split; [reflexivity|lia].
     + inversion H; subst. cbn [length]. split; [reflexivity|lia].
+Qed.
+
+(* the exchange fails only on a flagged response that the client cannot decode *)
+Lemma play_fail_reason : forall cc sc ct d,
+  (sc <> 0 -> d <> 0 -> plain ct = false -> d = sc) ->
+  forall rs code dq dr qs fs, play cc sc ct d rs = (code, dq, dr, qs, fs) -> code <> 0 ->
+  existsb (fun f => f =? 1) fs = true /\ (plain ct = true \/ d = 0).
+Proof.
+  intros cc sc ct d Hn. induction rs as [|[l m] rs IH]; intros code dq dr qs fs H Hc.
+  - inversion H; subst. congruence.
+  - cbn [play] in H.
+    destruct (client_takes ct d (if flag_of sc m =? 1 then sc else 0)) eqn:T.
+    + destruct (play cc sc ct d rs) as [[[[c1 q1] r1] qs1] fs1] eqn:P. inversion H; subst.
+      destruct (IH _ _ _ _ _ eq_refl Hc) as [I1 I2]. split; [|exact I2].
+      cbn [existsb]. rewrite I1. apply orb_true_r.
+    + inversion H; subst. unfold client_takes in T.
+      destruct (flag_of sc m =? 1) eqn:F; [|cbn in T; discriminate].
+      split; [cbn [existsb]; rewrite F; reflexivity|].
+      unfold flag_of in F. destruct (negb (sc =? 0) && negb (m =? 0)) eqn:G; [|discriminate].
+      apply andb_true_iff in G. destruct G as [G _]. apply negb_true_iff in G.
+      replace (sc =? 0) with false in T by lia. cbn [orb] in T.
+      destruct (plain ct) eqn:Pc; [auto|]. right. cbn [negb andb] in T.
+      destruct (d =? 0) eqn:D0; [lia|]. cbn [negb andb] in T.
+      assert (d = sc) by (apply Hn; lia). lia.
+Qed.
+
+Lemma flag_rows_10 : forall enc lens flags i, forallb row_ok (flag_rows 10 enc lens flags i) = true.
+Proof.
+  intros enc. induction lens as [|l ls IH]; intros flags i; [reflexivity|].
+  destruct flags as [|f fs]; [reflexivity|]. cbn [flag_rows forallb]. rewrite forallb_app, IH.
+  destruct (negb (plain enc) && (l =? 0)); reflexivity.
 Qed.
 
 Lemma play_qrows : forall cc sc ct d enc cl, (forall l, flag_of cc l = rule enc l) ->
@@ -341,8 +413,30 @@ Lemma clause_rpc_obs : forall reg r code reached setres reqEnc respEnc dq dr qs 
   clause_rows reg r code reached setres reqEnc respEnc dq dr qs fs.
 Proof. intros. unfold obs_of, clause_rpc. cbn [app]. rewrite get_put, get_put_nil. reflexivity. Qed.
 
-Lemma rows_resp_nil : forall r e, rows_resp r e [] = [].
-Proof. intros. unfold rows_resp. destruct (_ && _ && _); [reflexivity|apply flag_rows_nil]. Qed.
+Lemma rows_resp_nil : forall reg r q e, rows_resp reg r q e [] = [].
+Proof.
+  intros. unfold rows_resp. destruct (f10 reg r q); [apply flag_rows_nil|].
+  destruct (_ && _ && _); [reflexivity|apply flag_rows_nil].
+Qed.
+
+Definition reason (reg : Z -> bool) (r : rpc) (reqEnc respEnc : Z) (fs : list Z) : bool :=
+  match client_send reg r with None => true | Some _ => false end ||
+  negb (server_accepts reg r reqEnc) ||
+  match client_decoder reg r respEnc with
+  | None => true
+  | Some d => existsb (fun f => f =? 1) fs && (plain respEnc || (d =? 0))
+  end.
+
+Lemma rows_done_ok : forall reg r code reqEnc respEnc dr fs,
+  reason reg r reqEnc respEnc fs = true \/ (code = 0 /\ dr = Z.of_nat (length (rounds r))) ->
+  forallb row_ok (rows_done reg r code reqEnc respEnc dr fs) = true.
+Proof.
+  intros reg r code reqEnc respEnc dr fs H. unfold rows_done. fold (reason reg r reqEnc respEnc fs).
+  cbn [forallb]. rewrite andb_true_r. unfold row_ok. cbn [snd].
+  destruct H as [H|[H1 H2]].
+  - rewrite H. cbn [orb]. apply orb_true_r.
+  - subst. rewrite !Z.eqb_refl. cbn [andb]. rewrite !orb_true_r. reflexivity.
+Qed.
 
 Lemma rows_set_ok : forall r reached,
   forallb row_ok (rows_set reg0 r reached
@@ -371,14 +465,17 @@ Proof. intros. unfold row_ok. cbn [snd]. apply orb_true_r. Qed.
 Lemma early_holds : forall r code reqEnc, rounds r <> [] -> code <> 0 ->
   (negb (plain reqEnc) && negb (reg0 reqEnc) && negb (sdc r =? reqEnc) = true ->
    code = cUnimplemented) ->
+  (client_send reg0 r = None \/ server_accepts reg0 r reqEnc = false) ->
   forallb row_ok (clause_rpc reg0 r (obs_of code 0 0 reqEnc 0 0 0 [] [])) = true.
 Proof.
-  intros r code reqEnc Hrs Hc H6.
+  intros r code reqEnc Hrs Hc H6 Hreason.
   assert (Hlen: 1 <= Z.of_nat (length (rounds r))) by (destruct (rounds r); [congruence|cbn [length]; lia]).
   rewrite clause_rpc_obs. unfold clause_rows. rewrite !forallb_app.
   unfold rows_req. rewrite flag_rows_nil, rows_resp_nil.
   pose proof (rows_set_ok r 0) as RS. change (0 =? 1) with false in RS. cbv iota in RS. rewrite RS.
   rewrite rows_count_ok by (cbn [length]; lia).
+  rewrite rows_done_ok.
+  2:{ left. unfold reason. destruct Hreason as [Q|Q]; rewrite Q; [reflexivity|]. cbn [negb]. rewrite orb_true_r. reflexivity. }
   unfold rows_choice, rows_unsupp. cbn [forallb existsb andb].
   change (plain 0) with true. cbn [orb]. rewrite row_ok_true.
   destruct (negb (plain reqEnc) && negb (reg0 reqEnc) && negb (sdc r =? reqEnc)) eqn:E.
@@ -392,9 +489,9 @@ Proof.
   intros r [Hwc [Hscp Hrs]]. unfold run_rpc.
   assert (Hlen: 1 <= Z.of_nat (length (rounds r))) by (destruct (rounds r); [congruence|cbn [length]; lia]).
   destruct (client_send reg0 r) as [rc|] eqn:CS.
-  2:{ apply early_holds; [assumption|unfold cInternal; lia|]. intro Q. cbn in Q. discriminate. }
+  2:{ apply early_holds; [assumption|unfold cInternal; lia| |left; assumption]. intro Q. cbn in Q. discriminate. }
   destruct (server_accepts reg0 r rc) eqn:SA; cbn [negb].
-  2:{ apply early_holds; [assumption|unfold cUnimplemented; lia|]. intro Q. reflexivity. }
+  2:{ apply early_holds; [assumption|unfold cUnimplemented; lia| |right; assumption]. intro Q. reflexivity. }
   destruct (server_send reg0 r rc) as [[v0 v1] ct] eqn:SS.
   pose proof (rows_set_ok r 1) as R4. change (1 =? 1) with true in R4. cbv iota in R4.
   remember (if setn r =? 0 then 0 else if set_valid reg0 r (setn r) then 1 else 2) as setres eqn:Hset.
@@ -413,29 +510,51 @@ Proof.
   destruct (client_decoder reg0 r ct) as [d|] eqn:CD.
   2:{ rewrite clause_rpc_obs. unfold clause_rows. rewrite !forallb_app.
       rewrite rows_resp_nil, R3, R4. rewrite rows_count_ok by (cbn [length]; unfold cInternal; lia).
+      rewrite rows_done_ok.
+      2:{ left. unfold reason. rewrite CD. rewrite !orb_true_r. reflexivity. }
       unfold rows_unsupp. rewrite A6. cbn [existsb andb forallb]. rewrite row_ok_true.
       unfold rows_req. rewrite RS. cbn [map fst flag_rows]. rewrite flag_rows_nil, app_nil_r.
       rewrite Hq. unfold rule at 1. rewrite Z.eqb_refl. cbn [forallb]. rewrite row_ok_true.
       destruct (negb (plain rc) && (l =? 0)); reflexivity. }
-  destruct (play (client_codec r) (pick v0 v1) ct d (rounds r)) as [[[[code dq] dr] qs] fs] eqn:PL.
+  set (sc := server_codec reg0 r rc) in *.
+  destruct (play (client_codec r) sc ct d (rounds r)) as [[[[code dq] dr] qs] fs] eqn:PL.
   rewrite clause_rpc_obs. unfold clause_rows. rewrite !forallb_app. rewrite R3, R4.
   pose proof (play_codes _ _ _ _ _ _ _ _ _ _ PL) as PC. cbv zeta in PC.
   destruct PC as [P1 [P2 [P3 [P4 [P5 P6]]]]].
   unfold rows_req. rewrite (play_qrows _ _ _ _ rc 1 Hq _ _ _ _ _ _ _ PL).
   rewrite rows_count_ok by (destruct P6; lia).
-  assert (Hrule: forall l0, flag_of (pick v0 v1) l0 = rule ct l0).
-  { intro l0. destruct reg0_01 as [Q0 Q1]. exact (flag_response reg0 r rc v0 v1 ct l0 Q0 Q1 Hscp SS). }
-  assert (Hresp: forallb row_ok (rows_resp r ct fs) = true).
-  { unfold rows_resp. destruct (negb (scp r =? 0) && (setn r =? 1) && plain ct) eqn:F8.
+  destruct reg0_01 as [Q0 Q1].
+  (* outside the class of clause 10 the server's codec is the announced one *)
+  assert (Hsc: f10 reg0 r rc = false -> sc = pick v0 v1).
+  { intro F. unfold sc. rewrite (server_codec_send _ _ _ F). rewrite SS. reflexivity. }
+  assert (Hresp: forallb row_ok (rows_resp reg0 r rc ct fs) = true).
+  { unfold rows_resp. destruct (f10 reg0 r rc) eqn:F10; [apply flag_rows_10|].
+    assert (Hrule: forall l0, flag_of sc l0 = rule ct l0).
+    { intro l0. rewrite (Hsc eq_refl). exact (flag_response reg0 r rc v0 v1 ct l0 Q0 Q1 Hscp SS). }
+    destruct (negb (scp r =? 0) && (setn r =? 1) && plain ct) eqn:F8.
     - apply andb_true_iff in F8. destruct F8 as [_ Pc].
-      assert (Hz: forall m0, flag_of (pick v0 v1) m0 = 0).
+      assert (Hz: forall m0, flag_of sc m0 = 0).
       { intro m0. rewrite Hrule. unfold rule. rewrite Pc. reflexivity. }
       pose proof (play_fs_zero _ _ _ _ Hz _ _ _ _ _ _ PL) as Z0. clear - Z0.
       induction fs as [|f fs IH]; [reflexivity|]. cbn [forallb map] in *.
       apply andb_true_iff in Z0. destruct Z0 as [Z1 Z2]. rewrite Z1, (IH Z2).
       unfold row_ok. cbn [snd]. rewrite orb_true_r. reflexivity.
     - apply (play_rrows _ _ _ _ ct 2) with (rs := rounds r) (i := 0) in PL; [exact PL|exact Hrule]. }
-  rewrite Hresp. unfold rows_unsupp. rewrite A6. cbn [andb forallb].
+  rewrite Hresp.
+  assert (Hdone: forallb row_ok (rows_done reg0 r code rc ct dr fs) = true).
+  { destruct (f10 reg0 r rc) eqn:F10.
+    - unfold rows_done. rewrite F10. reflexivity.
+    - apply rows_done_ok. destruct P6 as [[P6 P7]|[P6 [P7 P8]]]; [right; auto|left].
+      unfold reason. rewrite CS, SA, CD. cbn [negb orb].
+      assert (Hn: sc <> 0 -> d <> 0 -> plain ct = false -> d = sc).
+      { intros S1 S2 S3. rewrite (Hsc eq_refl) in *.
+        destruct (server_codec_named reg0 r rc v0 v1 ct Q0 Q1 Hscp SS S1) as [N1 _].
+        destruct (client_decoder_named _ _ _ _ CD) as [N2|[N2 _]]; congruence. }
+      assert (Hc: code <> 0) by (subst code; unfold cInternal; lia).
+      destruct (play_fail_reason _ _ _ _ Hn _ _ _ _ _ _ PL Hc) as [E1 E2].
+      rewrite E1. cbn [andb]. destruct E2 as [E2|E2]; [rewrite E2; reflexivity|].
+      subst d. rewrite orb_true_r. reflexivity. }
+  rewrite Hdone. unfold rows_unsupp. rewrite A6. cbn [andb forallb].
   assert (R6: (if existsb (fun f => f =? 1) fs &&
                   (plain ct || (negb (reg0 ct) && negb (wd r =? ct)))
                then (code =? cInternal) && (dr <? Z.of_nat (length fs)) else true) = true).
@@ -446,11 +565,9 @@ Proof.
   rewrite R6. rewrite row_ok_true. reflexivity.
 Qed.
 
-Lemma parse_op_wf : forall w r, parse_op w = Some r -> rpc_wf r.
+Lemma parse_body_wf : forall md w r, parse_body md w = Some r -> rpc_wf r.
 Proof.
-  intros w r H. unfold parse_op in H.
-  destruct w as [|t w]; [discriminate|]. destruct (t =? 1) eqn:T; [|destruct t as [|[p|p|]|]; discriminate].
-  assert (t = 1) by lia. subst t.
+  intros md w r H. unfold parse_body in H.
   destruct w as [|u [|c [|d [|am [|sc [|sd [|sn [|n rest]]]]]]]]; try discriminate.
   destruct (pairs rest) as [ps|]; [|discriminate].
   destruct ((Z.of_nat (length ps) =? n) && (1 <=? n) && (0 <=? am) && (am <=? 7) &&
@@ -459,6 +576,22 @@ Proof.
   destruct E as [[[[[E1 E2] E3] E4] E5] E6]. unfold rpc_wf. cbn [wc scp rounds].
   apply Z.eqb_eq in E1. apply Z.leb_le in E2. apply Z.eqb_neq in E5, E6.
   repeat split; try lia. intro Q. subst ps. cbn [length] in E1. lia.
+Qed.
+
+Lemma parse_op_wf : forall w r, parse_op w = Some r -> rpc_wf r.
+Proof.
+  intros w r H. unfold parse_op in H.
+  destruct w as [|t w]; [discriminate|].
+  destruct (Z.eq_dec t 1) as [T1|T1]; [subst t; eapply parse_body_wf; eauto|].
+  destruct (Z.eq_dec t 2) as [T2|T2].
+  - subst t. destruct w as [|md b]; [discriminate|].
+    destruct ((0 <=? md) && (md <=? 4)); [|discriminate].
+    destruct (parse_body md b) as [r'|] eqn:P; [|discriminate].
+    destruct ((md =? 4) && negb (Z.of_nat (length (rounds r')) =? 1)); [discriminate|].
+    inversion H; subst. eapply parse_body_wf; eauto.
+  - exfalso. destruct t as [|p|p]; try discriminate.
+    destruct p as [p|p|]; try discriminate; try lia.
+    destruct p as [p|p|]; try discriminate; try lia.
 Qed.
 
 Theorem model_trace_holds : forall ops, forallb op_wf ops = true ->
@@ -485,3 +618,12 @@ Theorem finding_clauses_fail_on_model :
     filter (fun c => negb (snd c)) (clauses ops obs) = [(7, 0, false); (9, 0, false)] /\
     existsb (fun c => (fst (fst c) =? 8) && snd c) (clauses ops obs) = true.
 Proof. cbv zeta. split; [vm_compute; reflexivity|]. eexists. split; [vm_compute; reflexivity|]. split; vm_compute; reflexivity. Qed.
+
+(* clause 10 is false on the model's own traces of the three PreparedMsg witnesses *)
+Theorem finding_clause10_fails_on_model :
+  let ops := [[2; 2; 2; 0; 0; 0; 0; 0; 1; 1; 5; 5]; [2; 2; 0; 0; 0; 0; 0; 0; 2; 1; 5; 5];
+              [2; 2; 2; 0; 0; 0; 0; 0; 3; 1; 5; 5]] in
+  forallb op_wf ops = true /\
+  exists obs, run ops = Some obs /\
+    filter (fun c => negb (snd c)) (clauses ops obs) = [(10, 0, false); (10, 0, false); (10, 0, false)].
+Proof. cbv zeta. split; [vm_compute; reflexivity|]. eexists. split; vm_compute; reflexivity. Qed.
